@@ -17,6 +17,7 @@ import socket
 from dotenv import load_dotenv
 from flask import Flask, request, Response  # type: ignore
 from flask_login import LoginManager
+from jinja2 import select_autoescape
 from flask_socketio import SocketIO
 from werkzeug.routing import BaseConverter, Map  # type: ignore
 from werkzeug.middleware.proxy_fix import ProxyFix
@@ -107,6 +108,11 @@ def create_app(config: JsonObject | None = None,
         instance_path=folders.instance_path,
         template_folder=str(folders.template_folder),
         static_folder=str(folders.static_folder))
+    # DASH manifests are XML documents: escape template values in them too
+    app.jinja_options = dict(
+        app.jinja_options,
+        autoescape=select_autoescape(
+            enabled_extensions=('html', 'htm', 'xml', 'xhtml', 'svg', 'mpd')))
     add_routes(app)
     dash_settings = {
         'CSRF_SECRET': secrets.token_urlsafe(16),
